@@ -51,6 +51,7 @@ def build(tier, rnd):
     out += paren_setop_cases(15 if tier == "quick" else 100, common.env.seed() * 37 + 5)
     out += recursive_cte_cases(6 if tier == "quick" else 40, common.env.seed() * 41 + 5)
     out += update_shape_cases(12 if tier == "quick" else 80, common.env.seed() * 43 + 5)
+    out += dialect_name_cases(10 if tier == "quick" else 60, common.env.seed() * 47 + 1)
     # statement kinds that only some dialects accept are always shown to dialects that do
     g2 = sqlgen.Gen(random.Random(99))
     for i in range(6):
@@ -120,6 +121,20 @@ def recursive_cte_cases(n, seed):
         q = With([(nm, SetOp("union all", [anchor, rec]))], body)
         kind = rnd.choice(["insert", "ctas", "bare", "create_view"])
         out.append((("recursive_cte", i), Stmt(kind, Base(f"tb_rw{i}", rnd.choice([None, "sb"])) if kind != "bare" else None, q), ["tsql", "snowflake", rnd.choice(["oracle", "db2", "sqlite"])]))
+    return out
+
+
+def dialect_name_cases(n, seed):
+    """table names in spellings single dialects have, at every nesting depth the generator offers: bigquery project ids with dashes (unquoted),
+    an empty schema part under tsql / snowflake (db..t), four-part tsql names"""
+    rnd = random.Random(seed)
+    forms = [("bigquery", ["my-proj.ds", "other-proj-2.ds_b", "p-1.d"]), ("tsql", ["db1.", "srv.db2.sch", "db3."]), ("snowflake", ["db1.", "db2.", "db3.sc"])]
+    out = []
+    for i in range(n):
+        d, schemas = forms[i % len(forms)]
+        g = sqlgen.Gen(random.Random(seed * 31 + i), schemas=tuple(schemas), qualify_p=0.8)
+        st = g.statement(rnd.choice([1, 1, 2]), kinds=["insert", "ctas", "create_view", "bare", "insert_cols", "with_insert"])
+        out.append((("dialect_names", i), st, [d]))
     return out
 
 
